@@ -70,6 +70,15 @@ def _is_zero_return(n) -> bool:
     return a.value is None or (isinstance(a.value, ast.Constant) and a.value.value in (0, None, False))
 
 
+def _recovering(f, h: ast.ExceptHandler) -> bool:
+    """a handler that only assigns (a fall-back value to) the names its try body assigns"""
+    for t in walk(f.node):
+        if isinstance(t, ast.Try) and h in t.handlers:
+            tgt_try = {norm(x) for st in t.body for n in ast.walk(st) if isinstance(n, ast.Assign) for x in n.targets}
+            return bool(tgt_try) and all(isinstance(st, ast.Assign) and all(norm(x) in tgt_try for x in st.targets) for st in h.body) and all(isinstance(st, ast.Assign) for st in t.body)
+    return False
+
+
 def r19_2(ctx: Ctx) -> None:
     total = 0
     for name in HANDLERS:
@@ -77,6 +86,8 @@ def r19_2(ctx: Ctx) -> None:
         cfg = cfg_of(f.node)
         handlers = [n for n in cfg.nodes if n.kind == "handler"]
         for hn in handlers:
+            if _recovering(f, hn.ast):
+                continue  # not a failure of the command: the handler supplies a fall-back for what the try computed and the command goes on
             total += 1
             reach = cfg.reachable_from(hn)
             zero = [n for n in reach if n.kind == "stmt" and _is_zero_return(n)]
@@ -503,8 +514,17 @@ def r19_11(ctx: Ctx) -> None:
                     ok = True
                 elif isinstance(cd.func, ast.Attribute) and norm(cd.func.value) == "self":
                     m = ctx.prog.method(ctx.prog.cls("SevenZipFile", "py7zr"), cd.func.attr)
-                    if m is not None and any(isinstance(x, ast.Call) and attr_tail(x) in SAME_FILE and any("self.fp" in norm(q.expand_locals(m, a_)) or "self.filename" in norm(q.expand_locals(m, a_)) for a_ in x.args) for x in walk(m.node)):
-                        ok = True
+                    if m is not None and any(isinstance(x, ast.Call) and attr_tail(x) in SAME_FILE for x in walk(m.node)) and any(
+                            isinstance(x, ast.Attribute) and norm(x) in ("self.fp", "self.filename") for x in walk(m.node)):
+                        ok = True  # an identity test in a method that looks at the archive's own handle(s) / name
+            if ok:
+                # `c -v SIZE DIR/out DIR`: the archive is a SET of files; the identity test looks at the volumes too (a MultiVolume has no fileno())
+                mv = any(isinstance(cd2, ast.Call) and isinstance(cd2.func, ast.Attribute) and norm(cd2.func.value) == "self" and (m2 := ctx.prog.method(ctx.prog.cls("SevenZipFile", "py7zr"), cd2.func.attr)) is not None
+                         and any(isinstance(x, ast.Attribute) and x.attr in ("MultiVolume", "_files") or (isinstance(x, ast.Constant) and x.value == "_files") for x in walk(m2.node)) for cd2 in negs if isinstance(cd2, ast.Call))
+                direct = any(isinstance(cd2, ast.Call) and attr_tail(cd2) in SAME_FILE for cd2 in negs)
+                ctx.check(mv or direct, "R19.11", f, wcall, "the identity test covers the volumes of a multi-volume archive",
+                          "the test 'is this the archive being written' asks the handle for fileno(), which a MultiVolume answers with RuntimeError -> 'no': `c -v 1m DIR/out DIR` stores "
+                          "the half-written first volume DIR/out.7z.0001 as a member of itself and exits 0", construct="volumes pack themselves")
             ctx.check(ok, "R19.11", f, wcall, "a file found by the walk is stored only if it is not the archive being written",
                       "_writeall stores every regular file it finds, also the archive it is writing (`c backup.7z .`): the half-written archive becomes a member of itself, "
                       "`c` exits 0 and `x` yields the input tree plus a bogus backup.7z", construct="archive packs itself")
